@@ -516,6 +516,8 @@ func genPipeOne(r *h.Rand, kind int) string {
 		ops += " ; more ; check2 ; fini"
 		if i := strings.Index(ops, " ; resumefail"); i >= 0 && r.Chance(35) {
 			ops = ops[:i] + " ; resumefail ; fini" // the application gives up after the failed Resume
+		} else if i := strings.Index(ops, " ; suspend"); i >= 0 && r.Chance(15) {
+			ops = ops[:i] + " ; suspend ; fini" // Fini on a suspended screen: pollers and ChannelEvents readers are still released
 		}
 		return hdr(steps, exp, expat, fmt.Sprintf("feed2=%s exp2=%s cons=%s %s %s draw=%d", ppJoin(steps2), ppJoin(exp2), ppCons(r), stop, post(), r.Intn(2))) + ops
 	case 5: // PostEvent from several goroutines exactly at capacity-1 / capacity: nil iff enqueued, ErrEventQFull iff not
